@@ -291,9 +291,37 @@ class Orchestrator:
         res['thresholds'] = thresholds
         # ---- builder / generator panics and compile failures (C13 observations)
         n_mod = 0
+        n_def = 0
         for i, d in sorted(index.items(), key=lambda kv: str(kv[0])):
             for m in d['modules']:
                 n_mod += 1
+                dfn = m.get('definition')
+                if dfn and 'max_size' in m:
+                    # G-DEF (observation of the build step, C02): the definition recorded next to the generated
+                    # module — every placed datum aligned and inside the capacity, each variant listed in address order
+                    by_id = {x['id']: x for x in dfn['data']}
+                    n_def += 1
+                    for var in dfn['variants']:
+                        last = -1
+                        for did in var['data']:
+                            x = by_id.get(did)
+                            if x is None or x['offset'] is None:
+                                continue
+                            bad = None
+                            if x['align'] and x['offset'] % x['align'] != 0:
+                                bad = 'datum `%s` (size %d, align %d) of variant %d is at offset %d, not a multiple of its alignment' % (x['name'], x['size'], x['align'], var['id'], x['offset'])
+                            elif x['offset'] + x['size'] > m['max_size']:
+                                bad = 'datum `%s` of variant %d ends at %d, beyond the capacity %d' % (x['name'], var['id'], x['offset'] + x['size'], m['max_size'])
+                            elif x['size'] > 0 and x['offset'] <= last:
+                                bad = 'variant %d does not list its sized data in increasing address order (`%s` at %d after %d)' % (var['id'], x['name'], x['offset'], last)
+                            if x['size'] > 0:
+                                last = max(last, x['offset'])
+                            if bad:
+                                res['findings'].append({'props': ['C02'], 'rule': 'G-DEF', 'engine': 'GEN', 'module': m['tag'], 'tag': m['tag'], 'fn': None,
+                                                        'msg': bad, 'key': 'G-DEF|%s|%s' % (P.history_key(m), x['name']), 'history': m['history']})
+                                break
+                        if dfn['data'] and m.get('max_type_align') is not None:
+                            pass
                 for k, what in (('builder_panic', 'the builder panicked'), ('max_size_panic', 'max_size() panicked'),
                                 ('max_type_align_panic', 'max_type_align() panicked'), ('display_panic', 'rendering the definition as text panicked'),
                                 ('generator_panic', 'generate() panicked')):
@@ -338,7 +366,7 @@ class Orchestrator:
             tasks.append((os.path.join(fdir, 'facts_corpus_%s' % i), 'corpus', mods, prim_summary, 2))
         for cn in ('fibonacci', 'machin'):
             tasks.append((f_on, cn, None, prim_summary, 2))
-        gen = {'modules': [], 'stats': Counter(), 'samples': [], 'corpus_modules': n_mod}
+        gen = {'modules': [], 'stats': Counter(), 'samples': [], 'corpus_modules': n_mod, 'definitions_checked': n_def}
         with ProcessPoolExecutor(max_workers=min(16, len(tasks))) as ex:
             for r in ex.map(gen_worker, tasks):
                 res['findings'] += r['findings']
